@@ -21,8 +21,10 @@ HIST_RULE = ("seeded API histories in the rxsim op language, generated inside th
              "distinct_nontrivial counts distinct history shapes (hash of the op-kind/flag/task/fault/heap-policy sequence) per build")
 
 
-def B(name, variant, config, runs, budget_s, workers=16, mode="", gate=None):
+def B(name, variant, config, runs, budget_s, workers=16, mode="", gate=None, hang_s=None):
     d = {"name": name, "variant": variant, "config": config, "runs": runs, "budget_s": budget_s, "workers": workers, "mode": mode}
+    if hang_s is not None:
+        d["hang_s"] = hang_s
     if gate is not None:
         d["gate"] = gate
     return d
@@ -104,8 +106,8 @@ PROPERTIES = {
             "quick": [B("tsan-small-a", "tsan", "small-a", 1500, 45), B("plain-small-a", "plain", "small-a", 3000, 25), B("plain-small-b", "plain", "small-b", 1000, 10),
                       B("tsan-shipped", "tsan", "shipped", 8, 30, workers=8, gate=2)],
             "thorough": [B("tsan-small-a", "tsan", "small-a", 40000, 420), B("tsan-small-b", "tsan", "small-b", 15000, 180), B("plain-small-a", "plain", "small-a", 150000, 300),
-                         B("plain-small-b", "plain", "small-b", 50000, 120), B("tsan-shipped", "tsan", "shipped", 300, 420, workers=8, gate=4), B("plain-shipped", "plain", "shipped", 300, 240, workers=8, gate=4), B("full-dataset-shipped-plain", "plain", "shipped", 2, 1200, workers=2, mode="fullshipped", gate=0),
-                         B("full-dataset-shipped-tsan", "tsan", "shipped", 1, 1800, workers=1, mode="fullshipped", gate=0), B("contract-audit", "assert", "small-a", 3000, 40)],
+                         B("plain-small-b", "plain", "small-b", 50000, 120), B("tsan-shipped", "tsan", "shipped", 300, 420, workers=8, gate=4), B("plain-shipped", "plain", "shipped", 300, 240, workers=8, gate=4), B("full-dataset-shipped-plain", "plain", "shipped", 2, 1200, workers=2, mode="fullshipped", gate=0, hang_s=3600),
+                         B("full-dataset-shipped-tsan", "tsan", "shipped", 1, 1800, workers=1, mode="fullshipped", gate=0, hang_s=3600), B("contract-audit", "assert", "small-a", 3000, 40)],
         },
     },
     "C08": {
@@ -121,7 +123,7 @@ PROPERTIES = {
             "quick": [B("plain-small-a", "plain", "small-a", 4000, 30), B("plain-small-b", "plain", "small-b", 1500, 10), B("keysweep-small-a", "plain", "small-a", 100000, 25, mode="keysweep"), B("tsan-small-a", "tsan", "small-a", 600, 20),
                       B("plain-shipped", "plain", "shipped", 64, 40, workers=8, gate=4)],
             "thorough": [B("plain-small-a", "plain", "small-a", 150000, 300), B("plain-small-b", "plain", "small-b", 60000, 120), B("keysweep-small-a", "plain", "small-a", 1000000, 300, mode="keysweep"), B("tsan-small-a", "tsan", "small-a", 20000, 240),
-                         B("plain-shipped", "plain", "shipped", 2000, 420, workers=8, gate=8), B("full-dataset-shipped", "plain", "shipped", 3, 1500, workers=3, mode="fullshipped", gate=0),
+                         B("plain-shipped", "plain", "shipped", 2000, 420, workers=8, gate=8), B("full-dataset-shipped", "plain", "shipped", 3, 1500, workers=3, mode="fullshipped", gate=0, hang_s=3600),
                          B("contract-audit", "assert", "small-a", 3000, 40)],
         },
     },
